@@ -31,6 +31,7 @@ type FuncReport struct {
 	Unsupported string
 	CoverPCs    [][]*Term
 	CoverSites  []string // return site of each CoverPCs entry
+	CoverTraces [][]string
 	DeadOK      []string // return sites the contract declares unreachable
 	EntryPC     []*Term
 	Probes      map[string]*Term
@@ -186,6 +187,7 @@ func (e *Engine) verifyFunc(fn *ssa.Function, c *Contract, prop string) (rep *Fu
 		rep.Returns++
 		rep.CoverPCs = append(rep.CoverPCs, o.st.pc)
 		rep.CoverSites = append(rep.CoverSites, o.site)
+		rep.CoverTraces = append(rep.CoverTraces, o.st.trace)
 		ovars := map[string]SVal{}
 		for k, v := range vars {
 			ovars[k] = v
